@@ -60,7 +60,7 @@ func (g *Gen) withDefaults(fn *ssa.Function, ct *Contract) *Contract {
 		return ct
 	}
 	var extra []*Clause
-	names := sigParamNames(fn.Signature, true)
+	names := g.contractNames(fn, sigParamNames(fn.Signature, true))
 	var ts []types.Type
 	if r := fn.Signature.Recv(); r != nil {
 		ts = append(ts, r.Type())
@@ -175,7 +175,7 @@ func (fg *FuncGen) resolveCallee(c *ssa.CallCommon) *callee {
 				cl.name = fn.Object().Pkg().Name() + "." + methodKey(fn)
 			}
 		}
-		cl.params = sigParamNames(fn.Signature, true)
+		cl.params = g.contractNames(fn, sigParamNames(fn.Signature, true))
 		if ct != nil && len(ct.Params) > 0 {
 			cl.params = ct.Params
 		}
@@ -222,6 +222,20 @@ func (fg *FuncGen) execCall(res ssa.Value, c *ssa.CallCommon, in ssa.Instruction
 				fg.vals[res] = rv
 			}
 			return
+		}
+	}
+	if sf := c.StaticCallee(); sf != nil && !c.IsInvoke() && fg.g.isNewFunction(sf) {
+		if ct, _ := fg.g.contractFor0(sf); ct == nil {
+			var cargs []Val
+			for _, a := range c.Args {
+				cargs = append(cargs, fg.val(a))
+			}
+			if rv, ok := fg.inlineBody(sf, nil, cargs, "true"); ok {
+				if res != nil {
+					fg.vals[res] = rv
+				}
+				return
+			}
 		}
 	}
 	var args []Val
@@ -1307,7 +1321,7 @@ func (fg *FuncGen) overwriteObligations(results []Val) {
 		var pv Val
 		found := false
 		for _, p := range fg.fn.Params {
-			if p.Name() == pn {
+			if fg.ctName(p) == pn {
 				pv, found = fg.vals[p], true
 			}
 		}
@@ -1654,7 +1668,7 @@ func (fg *FuncGen) assumeObjInvIn(v Val, st *State) {
 
 func (fg *FuncGen) assumeStructInvsAtEntry() {
 	for _, p := range fg.fn.Params {
-		if fg.ct != nil && hasProp(fg.ct.NoInv, p.Name()) {
+		if fg.ct != nil && hasProp(fg.ct.NoInv, fg.ctName(p)) {
 			continue
 		}
 		fg.assumeObjInv(fg.vals[p], fg.entry, false)
@@ -1705,7 +1719,7 @@ func (fg *FuncGen) released(term string) bool {
 		return false
 	}
 	for _, p := range fg.fn.Params {
-		if hasProp(fg.ct.Releases, p.Name()) && fg.vals[p].T == term {
+		if hasProp(fg.ct.Releases, fg.ctName(p)) && fg.vals[p].T == term {
 			fg.note("%s: the object invariant of parameter %s is not required at return (`releases`: the object goes back to its pool)", funcDisplayName(fg.fn), p.Name())
 			return true
 		}
@@ -1875,7 +1889,7 @@ func (fg *FuncGen) implEnv(st, old *State, names []string) *SpecEnv {
 	env := fg.ownEnv(st, old)
 	// `thisfunc` in the function-type contract this function implements: this very function
 	env.vars["thisfunc"] = Val{T: fg.funcID(fg.fn), Typ: fg.fn.Signature}
-	own := sigParamNames(fg.fn.Signature, true)
+	own := fg.g.contractNames(fg.fn, sigParamNames(fg.fn.Signature, true))
 	for i, n := range names {
 		if i < len(own) {
 			env.vars[n] = fg.paramVals[own[i]]
